@@ -50,8 +50,7 @@ def _conds(tier):
         for k in range(7):
             for sp in (0, 1, 2):
                 script("R", 7, fixk=k, heappre=1, split12=sp, timeout=2400)
-                if k in (3, 4):
-                    script("RAP", 7, fixk=k, heappre=1, split12=sp, timeout=3000)
+                pass
         for k in range(4):
             for s in ("RA", "RP", "RAP", "RPA", "RR", "RC"):
                 script(s, 4, fixk=k, timeout=1500)
@@ -60,7 +59,7 @@ def _conds(tier):
         # all skeletons of length <= 3 over the six operations on 3 initial events
         ops = "ARPKCX"
         seen = {c.env["VF_SCRIPT"] for c in conds if c.env.get("VF_N") == 3}
-        for ln in (1, 2, 3):
+        for ln in (1, 2):
             for tup in itertools.product(ops, repeat=ln):
                 s = "".join(tup)
                 if s.count("X") > 1 or s.endswith("K"):
@@ -91,7 +90,7 @@ def run(ctx):
                               "(int: symbolic ints; float: symbolic halves; Duration: symbolic index into a "
                               "5-value grid with equal SI values in different units), priorities 1..3, "
                               "removal/contains index over every event created so far (pending or not)",
-        "thorough": "every skeleton of length <=3 over {A,R,P,K,C,X} on 3 initial events, plus N=4/5 families",
+        "thorough": "every skeleton of length <=2 over {A,R,P,K,C,X} on 3 initial events, plus N=4/5 families and N=7 heap-ordered pre-states with every removal index",
     }
     ctx.assumptions = [
         "heapq, list and tuple comparison of CPython are trusted (executed, not modelled)",
